@@ -37,6 +37,8 @@ def run(ctx: Ctx):
     model = ctx.model
     from .common_node import names_resolve
     names_resolve(ctx, "C13-RN")
+    from .common_node import taken_socket_is_closed
+    taken_socket_is_closed(ctx, "C13-R15")
     from .common_node import identity_semantics
     identity_semantics(ctx, "C13-R14")
     nc = _node(ctx)
